@@ -280,6 +280,10 @@ def accessor_after_clause(prog, rep):
             e, edge = clause
             lhs = e[2] if "size_items" in show(e[3]) else e[3]
             l = lhs[1] if lhs[0] == "var" else None
+            # `let end = offset + size_of::<ItemHeader>(); if end > size_items ..`: the compared value already includes the header
+            ltxt = show(strip_sites(lhs))
+            if l is None and lhs[0] in ("bin", "field") and "Add" in ltxt and (str(hsz) in ltxt or "size_of" in ltxt):
+                adv = True
             for (dbi, dsi, kind, node) in ir.defs.get(l, []) if l is not None else []:
                 if kind == "assign" and dbi in comp and b.dominates(dbi, edge[0]):
                     de = ir.rvalue(node["r"], (dbi, dsi))
